@@ -41,6 +41,33 @@ binding:   (a) every CASE line of TLC (old, script, expected new) and every CORR
                executions (runs of distinct lines, observed result collapsed run by run to line ids
                before TLC applies the logged commands to the abstract buffer); 64 KiB lines;
                thorough: diff -e on files up to 1001 lines.
+API surface (notes/API_SURFACE.md) -- every public way of parsing / applying an ed script:
+  entry point / variant                                   exercised by
+  ------------------------------------------------------  ---------------------------------------------
+  patches_from_ed_script(source), str lines               all legs (primary path), half of all calls
+  patches_from_ed_script(source), bytes lines (auto-      all legs; str and bytes scripts alternate by
+      detected pattern)                                       case hash within one process, both orders
+  ... re_cmd given explicitly, positionally / keyword     replay (cases, corruptions, scaled), final call
+      (standard pattern, str and bytes; `source=` too)        of every trace, stateless leg (2nd parse,
+                                                              interleaved parser); auto and explicit calls
+                                                              alternate in one process, both orders
+  ... re_cmd = a pattern tolerating blanks after the      replay of TLC cases: the command lines carry
+      command letter (custom command syntax)                  the blanks, same abstract case, same verdict
+  ... re_cmd of the other type (str pattern, bytes lines) out of domain (TypeError from re, caller's error)
+  source = list / tuple / iterator / generator / text     all legs, rotating (bare-line style only with
+      and binary file object / iter(f.readline, '')           in-memory sequences)
+  source = file NAME                                      not accepted by the function (iterates characters)
+  patchesFromEdScript (function_deprecated_by)            replay rotating sample, traces (final call),
+                                                              stateless leg (first parse)
+  patch_lines(lines, patches), patches = generator        all legs (primary path)
+  ... patches = list / tuple / iterator of triples        replay rotating sample, traces, stateless leg
+  ... keyword arguments lines=, patches=                  replay rotating sample, traces
+  patch_lines on anything but a list (tuple, str)         out of domain: documented "Updates lines in place"
+  patchLines (function_deprecated_by)                     replay rotating sample, traces, stateless leg
+  update_file(remote, local) -> download + patch_lines    indirect user, covered by C19 (UpdateFile); its
+                                                              call patch_lines(lines, patches_from_ed_script(
+                                                              list of str)) is the primary path here
+  _patch_re / _patch_re_b, read_lines_sha1, replace_file  private / not part of the statement
 verdict observables: result list == expected (TLC), ValueError for every corruption.
 unspecified (executed, any outcome accepted, recorded in the evidence): 0c, 0d, reversed ranges,
            addresses beyond the buffer, non-ASCII digits, empty text blocks, white space / CR /
@@ -60,7 +87,7 @@ import core
 
 MANIFEST = dict(
     technique="TLA+ spec EdScript (ed reference semantics + declarative diff target + line automaton of patches_from_ed_script + slice assignment of patch_lines) model-checked by TLC over all bounded buffers x generator scripts x single corruptions; every TLC case replayed into the real functions (str/bytes, list/iterator/file-like sources); recorded executions on difflib / diff -e scripts validated by TLC (TraceEdScript)",
-    text="TLC enumerates every buffer of at most 4 lines over 2 line ids and every script of at most 3 commands that a bottom-up differ can emit (a/c/d, one- and two-address forms, blocks of 1-2 lines, hunks that touch) and checks in each state that the (first,last,lines) conversion plus slice assignment equals ed's semantics, that command-by-command application reaches the declarative target of the diff, and that the parser automaton rejects every script with one syntactic corruption (8 kinds). Each enumerated case and corruption carries TLC's expected result and is replayed into patches_from_ed_script/patch_lines with str and bytes concretizations (lines such as '..', '.x', '1d', '2,3c', empty, non-ASCII) from list, iterator and file-like sources; for every case the check also shows that no state survives between calls (one materialised patches list applied to two buffers, the script parsed twice with the first parse's hunk lists mutated in between, two parsers over different scripts advanced alternately, caller's lists untouched). Size stress in both directions: the same abstract cases are also concretized with every abstract line standing for a run of lines (files up to 100000 lines with addresses next to every power of ten, hunks up to 1025 lines, 64 KiB lines; the expected result is the expansion of the tag structure TLC computes for the case), and recorded executions include scripts of 100+ commands on files of 1000 lines (validated line by line by TLC) and of 10^4/10^5 lines (collapsed run by run). In the other direction random (old,new) pairs up to 30 lines get a script from an independent differ (difflib in three emission styles; diff -e in the thorough tier); the real code's result for every script prefix and for the whole script is logged and TLC must explain it with EdApply and reach new.",
+    text="TLC enumerates every buffer of at most 4 lines over 2 line ids and every script of at most 3 commands that a bottom-up differ can emit (a/c/d, one- and two-address forms, blocks of 1-2 lines, hunks that touch) and checks in each state that the (first,last,lines) conversion plus slice assignment equals ed's semantics, that command-by-command application reaches the declarative target of the diff, and that the parser automaton rejects every script with one syntactic corruption (8 kinds). Each enumerated case and corruption carries TLC's expected result and is replayed into patches_from_ed_script/patch_lines with str and bytes concretizations (lines such as '..', '.x', '1d', '2,3c', empty, non-ASCII) from list, iterator and file-like sources; for every case the check also shows that no state survives between calls (one materialised patches list applied to two buffers, the script parsed twice with the first parse's hunk lists mutated in between, two parsers over different scripts advanced alternately, caller's lists untouched). Every public entry point (camelCase aliases, explicit re_cmd positional/keyword, a custom re_cmd, patches as generator/list/tuple/iterator, keyword calls) is exercised on a rotating half of all calls with the same TLC verdicts, str and bytes interleaved in one process. Size stress in both directions: the same abstract cases are also concretized with every abstract line standing for a run of lines (files up to 100000 lines with addresses next to every power of ten, hunks up to 1025 lines, 64 KiB lines; the expected result is the expansion of the tag structure TLC computes for the case), and recorded executions include scripts of 100+ commands on files of 1000 lines (validated line by line by TLC) and of 10^4/10^5 lines (collapsed run by run). In the other direction random (old,new) pairs up to 30 lines get a script from an independent differ (difflib in three emission styles; diff -e in the thorough tier); the real code's result for every script prefix and for the whole script is logged and TLC must explain it with EdApply and reach new.",
     note="Small-scope for the exhaustive part (buffers <= 4 lines, scripts <= 3 commands); line text is sampled. Semantically odd commands (0c, 0d, reversed ranges, out-of-range addresses, non-ASCII digits, empty blocks, white space around commands) are executed but unspecified. Trusted: TLC, the concretizer, difflib/diff -e as script sources, the small parser that reads diff -e output back into a command list (a wrong parse is rejected by TLC, never accepted). Three spec-level negative controls and corrupted control traces are required to fail in every run.",
     design="5 (C18)")
 
@@ -409,34 +436,38 @@ def pad_commands(script_lines, toks, typ, hc):
 def run_real(old_lines, script_lines, kind, typ, api=None):
     """-> (outcome, resulting list): outcome 'ok' / 'ValueError' / 'EXC:<type>'.  Exceptions of the
     code under test are observations."""
-    import warnings
     import debian.debian_support as ds
-    parser, recmd, applier, form = (api or DEFAULT_API).split("/")
+    if not _PATTERNS.get("warnings-off"):
+        import warnings
+        warnings.simplefilter("ignore", DeprecationWarning)     # the camelCase aliases warn on every call
+        _PATTERNS["warnings-off"] = True
     lines = list(old_lines)
     try:
-        with warnings.catch_warnings():
-            warnings.simplefilter("ignore", DeprecationWarning)
-            parse = ds.patches_from_ed_script if parser == "pfes" else ds.patchesFromEdScript
-            apply_ = ds.patchLines if applier == "alias" else ds.patch_lines
-            src = make_source(script_lines, kind, typ)
-            if recmd == "auto":
-                patches = parse(src)
-            elif recmd == "pos":
-                patches = parse(src, _pattern(typ, False))
-            elif recmd == "kw":
-                patches = parse(source=src, re_cmd=_pattern(typ, False))
-            else:
-                patches = parse(src, re_cmd=_pattern(typ, True))
-            if form == "list":
-                patches = list(patches)
-            elif form == "tuple":
-                patches = tuple(patches)
-            elif form == "iter":
-                patches = iter(list(patches))
-            if applier == "kw":
-                apply_(lines=lines, patches=patches)
-            else:
-                apply_(lines, patches)
+        src = make_source(script_lines, kind, typ)
+        if api is None or api == DEFAULT_API:
+            ds.patch_lines(lines, ds.patches_from_ed_script(src))
+            return "ok", lines
+        parser, recmd, applier, form = api.split("/")
+        parse = ds.patches_from_ed_script if parser == "pfes" else ds.patchesFromEdScript
+        apply_ = ds.patchLines if applier == "alias" else ds.patch_lines
+        if recmd == "auto":
+            patches = parse(src)
+        elif recmd == "pos":
+            patches = parse(src, _pattern(typ, False))
+        elif recmd == "kw":
+            patches = parse(source=src, re_cmd=_pattern(typ, False))
+        else:
+            patches = parse(src, re_cmd=_pattern(typ, True))
+        if form == "list":
+            patches = list(patches)
+        elif form == "tuple":
+            patches = tuple(patches)
+        elif form == "iter":
+            patches = iter(list(patches))
+        if applier == "kw":
+            apply_(lines=lines, patches=patches)
+        else:
+            apply_(lines, patches)
     except ValueError:
         return "ValueError", None
     except Exception as e:          # noqa: BLE001 -- observation
@@ -507,15 +538,26 @@ def _hunks(patches):
         return None
 
 
-def check_stateless(A, B):
+def check_stateless(A, B, mix=0):
     """A, B: dicts(old_lines, script_lines, expected) of two different TLC cases.
     (1) one materialised patches list applied to two independent copies of old, copy 1 mutated in
         between;  (2) the same script parsed twice (list source), the hunk lists of the first parse
         mutated in between;  (3) two generators over two scripts advanced alternately;
     (4) parsing leaves the caller's script list alone, patch_lines touches only the list it is given.
+    mix: bit set of entry-point substitutions, so that one history goes through several public
+    ways of doing the same thing (1: first parse through patchesFromEdScript, 2: second parse with
+    the standard pattern given explicitly as re_cmd, 4: second application through patchLines,
+    8: the interleaved parser of B gets an explicit re_cmd, A's does not)
     -> None or a message"""
-    from debian.debian_support import patch_lines, patches_from_ed_script
+    import warnings
+    import debian.debian_support as ds
+    warnings.simplefilter("ignore", DeprecationWarning)
+    patch_lines = ds.patch_lines
+    patches_from_ed_script = ds.patches_from_ed_script
     typ = type(A["script_lines"][0]) if A["script_lines"] else type(A["old_lines"][0]) if A["old_lines"] else str
+    tname = "str" if typ is str else "bytes"
+    btyp = B["script_lines"][0] if B["script_lines"] else (B["old_lines"][0] if B["old_lines"] else "")
+    bname = "str" if isinstance(btyp, str) else "bytes"
     junk = "<junk>\n" if typ is str else b"<junk>\n"
     what = "script %s on %s" % (show(A["script_lines"]), show(A["old_lines"]))
     step = "parsing"
@@ -524,7 +566,7 @@ def check_stateless(A, B):
         old = list(A["old_lines"])
         exp = list(A["expected"])
         # (1) + (4)
-        patches = list(patches_from_ed_script(script))
+        patches = list((ds.patchesFromEdScript if mix & 1 else patches_from_ed_script)(script))
         if script != A["script_lines"]:
             return "%s: parsing modified the caller's script list: %s" % (what, show(script))
         hunks = _hunks(patches)
@@ -543,7 +585,7 @@ def check_stateless(A, B):
         c1[0] = junk
         step = "applying the same patches to a second copy"
         c2 = list(old)
-        patch_lines(c2, patches)
+        (ds.patchLines if mix & 4 else patch_lines)(c2, patches)
         if c2 != exp:
             return "%s: the same patches applied to a second copy of the buffer (first result mutated) give %s, specification says %s" % (what, show(c2), show(exp))
         # (2)
@@ -552,7 +594,8 @@ def check_stateless(A, B):
                 h[:] = [junk, junk]
         del c2[:]
         step = "parsing the script a second time"
-        patches2 = list(patches_from_ed_script(script))
+        patches2 = list(patches_from_ed_script(script, re_cmd=_pattern(tname, False)) if mix & 2 and script
+                        else patches_from_ed_script(script))
         c3 = list(old)
         patch_lines(c3, patches2)
         if c3 != exp:
@@ -560,7 +603,8 @@ def check_stateless(A, B):
         # (3)
         step = "interleaving with the script %s" % show(B["script_lines"])
         ga = patches_from_ed_script(list(A["script_lines"]))
-        gb = patches_from_ed_script(list(B["script_lines"]))
+        gb = (patches_from_ed_script(list(B["script_lines"]), _pattern(bname, False)) if mix & 8 and B["script_lines"]
+              else patches_from_ed_script(list(B["script_lines"])))
         pa, pb = [], []
         end = object()
         live = [(ga, pa), (gb, pb)]
@@ -656,6 +700,7 @@ def replay_cases(ctx, raw_paths, maxbuf, quick):
     per_cmd = {}
     per_kind = {}
     per_style = {}
+    per_api = {}
     samples = {}
     stash = []
     stash_mod = 1 if quick else 4
@@ -684,12 +729,17 @@ def replay_cases(ctx, raw_paths, maxbuf, quick):
                 old_lines = conc.buf(v["old"])
                 script_lines = conc.script(toks)
                 expected = conc.buf(v["new"])
-                msg = check_apply(old_lines, script_lines, expected, kind, typ)
+                api = pick_api(hc)
+                if api.split("/")[1] == "ws":
+                    script_lines = pad_commands(script_lines, toks, typ, hc)
+                msg = check_apply(old_lines, script_lines, expected, kind, typ, api)
                 nrun += 1
                 st = "%s/%s/%s" % (typ, nl, kind)
                 per_style[st] = per_style.get(st, 0) + 1
+                for part in api.split("/"):
+                    per_api[part] = per_api.get(part, 0) + 1
                 if msg:
-                    ctx.violation({"kind": "apply", "abstract": v, "conc": conc.to_json(), "typ": typ, "src": kind,
+                    ctx.violation({"kind": "apply", "abstract": v, "conc": conc.to_json(), "typ": typ, "src": kind, "api": api,
                                    "old_lines": old_lines, "script_lines": script_lines,
                                    "expected": {"res": "ok", "lines": expected}}, msg)
                     break
@@ -704,7 +754,8 @@ def replay_cases(ctx, raw_paths, maxbuf, quick):
                     kind = hs.choice(("list", "tuple", "iter", "gen"))
                 conc = hs.choice(concs[(typ, nl, False)])
                 s_old, s_script, s_exp = build_scaled(v, conc, params)
-                msg = check_apply(s_old, s_script, s_exp, kind, typ)
+                api = pick_api(hs, allow_ws=False)
+                msg = check_apply(s_old, s_script, s_exp, kind, typ, api)
                 nrun += 1
                 nscaled += 1
                 b = len(str(len(s_old)))
@@ -715,7 +766,7 @@ def replay_cases(ctx, raw_paths, maxbuf, quick):
                     samples[("scaled",)] = "SCALED old=%s script=%s tnew=%s runs=%s: %s on %d lines -> %d lines" % (
                         v["old"], json.dumps(toks, separators=(",", ":")), v["tnew"], params["runs"], show(s_script), len(s_old), len(s_exp))
                 if msg:
-                    ctx.violation({"kind": "scaled", "abstract": v, "conc": conc.to_json(), "params": params, "typ": typ, "src": kind},
+                    ctx.violation({"kind": "scaled", "abstract": v, "conc": conc.to_json(), "params": params, "typ": typ, "src": kind, "api": api},
                                   "[size stress: runs %s, hunks %s] %s" % (params["runs"], params["hunks"], msg))
             ctx.case_seen(("case", h, ncase), bool(toks))
             if h % stash_mod == 0:
@@ -742,10 +793,13 @@ def replay_cases(ctx, raw_paths, maxbuf, quick):
                 old_lines = conc.buf([1] * maxbuf)
                 big = v["pos"] - 1 if rep == 3 and v["kind"] in ("letter", "nonum", "garbage", "arange") else None
                 script_lines = conc.script(v["lines"], hc, big_at=big)
-                msg = check_raises(old_lines, script_lines, kind, typ)
+                api = pick_api(hc, allow_ws=False)
+                for part in api.split("/"):
+                    per_api[part] = per_api.get(part, 0) + 1
+                msg = check_raises(old_lines, script_lines, kind, typ, api)
                 nrun += 1
                 if msg:
-                    ctx.violation({"kind": "corrupt", "abstract": v, "conc": conc.to_json(), "typ": typ, "src": kind,
+                    ctx.violation({"kind": "corrupt", "abstract": v, "conc": conc.to_json(), "typ": typ, "src": kind, "api": api,
                                    "old_lines": old_lines, "script_lines": script_lines,
                                    "expected": {"res": "ValueError"}}, "[%s] %s" % (v["kind"], msg))
                     break
@@ -767,10 +821,11 @@ def replay_cases(ctx, raw_paths, maxbuf, quick):
         cur = {"old_lines": conc.buf(v["old"]), "script_lines": conc.script(v["lines"]), "expected": conc.buf(v["new"]),
                "abstract": v}
         if prev is not None:
-            msg = check_stateless(cur, prev)
+            mix = hc._next() % 16
+            msg = check_stateless(cur, prev, mix)
             nstate += 1
             if msg:
-                ctx.violation({"kind": "stateless", "A": cur, "B": prev}, "[state between calls] " + msg)
+                ctx.violation({"kind": "stateless", "A": cur, "B": prev, "mix": mix}, "[state between calls; entry-point mix %d] %s" % (mix, msg))
         prev = cur
     ctx.extra["stateless_pairs_checked"] = nstate
     ctx.evaluations += nstate
@@ -785,6 +840,7 @@ def replay_cases(ctx, raw_paths, maxbuf, quick):
     ctx.extra["commands_per_form"] = dict(sorted(per_cmd.items()))
     ctx.extra["corruptions_per_kind"] = dict(sorted(per_kind.items()))
     ctx.extra["replay_styles"] = dict(sorted(per_style.items()))
+    ctx.extra["replay_entry_points"] = dict(sorted(per_api.items()))
     return ncase, ncorr
 
 
@@ -933,7 +989,7 @@ def observe(rev, res, lines):
     return {"res": "ok", "obs": [rev.get(l, 0) for l in lines]}
 
 
-def record_apply(ctx, rng, old, new, nids, script, conc, final_kind, script_lines=None, scale=None):
+def record_apply(ctx, rng, old, new, nids, script, conc, final_kind, script_lines=None, scale=None, api=None):
     """run the real code on every prefix of the script (list source) and on the whole script
     (final_kind source); log what it produced as line-id sequences.
     scale = {"runs": [...], "ks": [...]}: size-stressed execution -- the p-th abstract line is a run
@@ -977,10 +1033,12 @@ def record_apply(ctx, rng, old, new, nids, script, conc, final_kind, script_line
         events.append(dict(cmd=script[i - 1], **obs(res, got)))
     if script_lines is None:
         script_lines = prefix(len(script))
-    res, got = run_real(old_lines, script_lines, final_kind, conc.typ)
+    if api is None and rng is not None:
+        api = pick_api(rng, allow_ws=False)
+    res, got = run_real(old_lines, script_lines, final_kind, conc.typ, api)
     trace = {"kind": "apply", "old": old, "new": new, "events": events, "final": obs(res, got)}
     meta = {"kind": "apply", "old": old, "new": new, "script": script, "conc": conc.to_json(), "typ": conc.typ,
-            "src": final_kind, "old_lines": old_lines, "script_lines": script_lines, "scale": scale}
+            "src": final_kind, "old_lines": old_lines, "script_lines": script_lines, "scale": scale, "api": api}
     return trace, meta
 
 
@@ -1062,9 +1120,10 @@ def record_corrupt(rng, old, nids, script, typ, nl, kind_src):
     conc = Conc(rng, nids, typ, nl, safe=kind in ("text", "nocmd"))
     old_lines = conc.buf(old)
     script_lines = conc.script(toks, rng)
-    res, _ = run_real(old_lines, script_lines, kind_src, typ)
+    api = pick_api(rng, allow_ws=False)
+    res, _ = run_real(old_lines, script_lines, kind_src, typ, api)
     trace = {"kind": "corrupt", "lines": [tok_record(t) for t in toks], "res": res}
-    meta = {"kind": "corrupt-trace", "corruption": kind, "tokens": toks, "conc": conc.to_json(), "typ": typ,
+    meta = {"kind": "corrupt-trace", "corruption": kind, "tokens": toks, "conc": conc.to_json(), "typ": typ, "api": api,
             "src": kind_src, "old_lines": old_lines, "script_lines": script_lines}
     return trace, meta
 
@@ -1121,7 +1180,7 @@ def validate(ctx, traces, with_controls=True):
 def explain(trace, meta, at):
     if trace["kind"] == "corrupt":
         return "corrupted script [%s] %s (%s source): outcome %s, the parser automaton of the specification says otherwise" % (
-            meta["corruption"], show(meta["script_lines"]), meta["src"], trace["res"])
+            meta["corruption"], show(meta["script_lines"]), _via(meta["src"], meta.get("api")), trace["res"])
     ev = trace["events"]
     if at < len(ev):
         e = ev[at]
@@ -1129,7 +1188,7 @@ def explain(trace, meta, at):
             show(meta["script_lines"]), show(meta["old_lines"]), at + 1, json.dumps(e["cmd"], sort_keys=True), e["res"], e["obs"],
             trace["old"], trace["new"])
     return "script %s on %s (%s source): whole-script result %s %s; prefix runs end in %s; target new=%s (line ids)" % (
-        show(meta["script_lines"]), show(meta["old_lines"]), meta["src"], trace["final"]["res"], trace["final"]["obs"],
+        show(meta["script_lines"]), show(meta["old_lines"]), _via(meta["src"], meta.get("api")), trace["final"]["res"], trace["final"]["obs"],
         ev[-1]["obs"] if ev else trace["old"], trace["new"])
 
 
@@ -1312,25 +1371,26 @@ def run(ctx):
 def replay(ctx, case):
     kind = case["kind"]
     if kind == "apply":
-        return check_apply(case["old_lines"], case["script_lines"], case["expected"]["lines"], case["src"], case["typ"])
+        return check_apply(case["old_lines"], case["script_lines"], case["expected"]["lines"], case["src"], case["typ"], case.get("api"))
     if kind == "corrupt":
-        return check_raises(case["old_lines"], case["script_lines"], case["src"], case["typ"])
+        return check_raises(case["old_lines"], case["script_lines"], case["src"], case["typ"], case.get("api"))
     if kind == "stateless":
-        return check_stateless(case["A"], case["B"])
+        return check_stateless(case["A"], case["B"], case.get("mix", 0))
     if kind == "scaled":
         conc = Conc.from_text(case["conc"]["typ"], case["conc"]["nl"], {int(k): v for k, v in case["conc"]["text"].items()})
         old_lines, script_lines, expected = build_scaled(case["abstract"], conc, case["params"])
-        return check_apply(old_lines, script_lines, expected, case["src"], case["typ"])
+        return check_apply(old_lines, script_lines, expected, case["src"], case["typ"], case.get("api"))
     if kind == "trace":
         t = case["trace"]
         if t["kind"] == "corrupt":
-            res, _ = run_real(case["old_lines"], case["script_lines"], case["src"], case["typ"])
+            res, _ = run_real(case["old_lines"], case["script_lines"], case["src"], case["typ"], case.get("api"))
             new = dict(t, res=res)
         else:
             conc = Conc.from_text(case["conc"]["typ"], case["conc"]["nl"],
                                   {int(k): v for k, v in case["conc"]["text"].items()})
             new, meta = record_apply(ctx, None, case["old"], case["new"], len(conc.text), case["script"], conc,
-                                     case["src"], script_lines=case.get("script_lines"), scale=case.get("scale"))
+                                     case["src"], script_lines=case.get("script_lines"), scale=case.get("scale"),
+                                     api=case.get("api") or DEFAULT_API)
             case = dict(case, old_lines=meta["old_lines"], script_lines=meta["script_lines"])
         rejected, info = validate(ctx, [new], with_controls=False)
         if rejected:
